@@ -390,3 +390,67 @@ Proof.
   split; [constructor; assumption|]. split; [split; [vm_compute; reflexivity|vm_compute; intuition discriminate]|].
   split; vm_compute; reflexivity.
 Qed.
+
+(** ---- audit additions ---- *)
+(** the size hypothesis [fits] / [SEQ] of C12_parse_total_load_never_panics at a REAL size: any payload of 8612 bytes (the DSDT.aml of
+    /repo's tabletest directory is 8648 bytes = 36-byte header + 8612) over the default scopes satisfies it, so loading it never
+    panics ... *)
+Example C12_load_never_panics_real_size :
+  forall payload : list N, Forall (fun b => b < 256) payload -> N.of_nat (length payload) = 8612 ->
+    SEQ ds_tree [] 1 [payload] /\ fst (fst (load [payload])) <> 2.
+Proof.
+  intros payload Hb Hl.
+  assert (HS : SEQ ds_tree [] 1 [payload]).
+  { cbn [SEQ]. cbv zeta. split; [|intros s _; exact I]. split.
+    - split; [apply table_image_small; exact Hb|]. rewrite table_image_length, Nat2N.inj_add, Hl. vm_compute. discriminate.
+    - cbv zeta. rewrite table_image_length, Nat2N.inj_add, Hl. vm_compute. discriminate. }
+  split; [exact HS|exact (load_never_panics [payload] HS)].
+Qed.
+
+(** ... but [fits] is a QUADRATIC bound (about 32 * len^2 <= 2^32 for a small pool): over the default scopes no image of 12000 bytes
+    satisfies it, whatever its contents - tables above about 11.5 KB are outside the load theorems *)
+Example C12_fits_excludes_12000_bytes : forall data : list N, N.of_nat (length data) = 12000 -> ~ fits ds_tree data.
+Proof. intros data Hl (_ & H). cbv zeta in H. rewrite Hl in H. vm_compute in H. apply H. reflexivity. Qed.
+
+(** all three hypotheses of C12_parse_total_parseAML_keeps_invariant TOGETHER (INV of the default scopes, fits, a successful parse of the
+    table Name(AAAA, One)), and its conclusion *)
+Example C12_parseAML_keeps_invariant_nonvacuous :
+  INV ds_tree ds_ghost [] 1 /\ fits ds_tree (table_image lx_p1) /\ parseAML ds_tree [] 1 (table_image lx_p1) = Ok (true, lx_s1) /\
+  exists g', INV (p_tree lx_s1) g' ([] ++ [table_image lx_p1]) (1 + 1).
+Proof.
+  assert (F : fits ds_tree (table_image lx_p1)) by lx_fits.
+  split; [exact ds_INV|]. split; [exact F|]. split; [exact lx_e1|].
+  exact (parseAML_keeps_INV ds_tree ds_ghost [] 1 (table_image lx_p1) lx_s1 ds_INV F lx_e1).
+Qed.
+
+(** the C12_parse_total_partial_fuel_* theorems at a state the PARSER produced (the pool after loading Name(AAAA, One): 9 slots) and with
+    the fuel ParseAML itself uses for that table, parse_fuel (42 + 6) = 448: the invariants come from the theorem above, the fuel
+    hypothesis 2 * 9 <= 448 holds, and the theorems give that the walks return *)
+Example C12_fuel_real_state_nonvacuous :
+  let F := parse_fuel (length (table_image lx_p1) + length (t_pool ds_tree)) in
+  (2 * length (t_pool (p_tree lx_s1)) <= F)%nat /\
+  (exists g, TI lx_s1 g /\ typed (p_tree lx_s1) /\ glive g 0 /\ groot g 0) /\
+  (exists r s', connectNamedObjArgs F 0 lx_s1 = Ok (r, s')) /\
+  (exists r s', resolveMethodCalls F 0 lx_s1 = Ok (r, s')) /\
+  (exists r s', connectNonNamedObjArgs F 0 lx_s1 = Ok (r, s')) /\
+  (exists r s', parse_tail2 F F lx_s1 = Ok (r, s')).
+Proof.
+  intros F.
+  assert (HF : (2 * length (t_pool (p_tree lx_s1)) <= F)%nat) by (vm_compute; lia).
+  assert (Ft : fits ds_tree (table_image lx_p1)) by lx_fits.
+  destruct (parseAML_keeps_INV ds_tree ds_ghost [] 1 (table_image lx_p1) lx_s1 ds_INV Ft lx_e1)
+    as (g & HR & Hi & H0 & Hr0 & _ & _ & Hty & Hpool & _).
+  assert (Hp : pool_ok (p_tables lx_s1) (p_tree lx_s1)) by exact Hpool.
+  split; [exact HF|]. split; [exists g; split; [constructor; assumption|]; split; [exact Hty|split; [exact H0|exact Hr0]]|].
+  split.
+  { pose proof (connectNamedObjArgs_returns F 0 lx_s1 g HR Hi Hp H0 HF) as W.
+    destruct (connectNamedObjArgs F 0 lx_s1) as [[r s']| |]; [eauto|contradiction..]. }
+  split.
+  { pose proof (resolveMethodCalls_returns F lx_s1 g HR Hi Hp Hty H0 Hr0 HF) as W.
+    destruct (resolveMethodCalls F 0 lx_s1) as [[r s']| |]; [eauto|contradiction..]. }
+  split.
+  { pose proof (connectNonNamedObjArgs_returns F lx_s1 g HR Hi Hp H0 Hr0 HF) as W.
+    destruct (connectNonNamedObjArgs F 0 lx_s1) as [[r s']| |]; [eauto|contradiction..]. }
+  { pose proof (tail2_returns F F lx_s1 g HR Hi Hp Hty H0 Hr0 HF HF) as W.
+    destruct (parse_tail2 F F lx_s1) as [[r s']| |]; [eauto|contradiction..]. }
+Qed.
